@@ -10,6 +10,7 @@ package simrt
 
 import (
 	"fmt"
+	"os"
 	"hash/fnv"
 	"runtime"
 	"sort"
@@ -28,6 +29,9 @@ var active atomic.Pointer[Sim]
 var realBase = time.Now()
 
 var inactiveRot atomic.Uint64
+
+// fullTrace (VERIF_FULLTRACE=1): every yield is rendered into the schedule, for debugging the simulator itself.
+var fullTrace = os.Getenv("VERIF_FULLTRACE") == "1"
 
 // Active reports whether a simulation is running in this process.
 func Active() bool { return active.Load() != nil }
@@ -314,6 +318,9 @@ func (s *Sim) fastYield(g uint64, site string) bool {
 	}
 	s.fastRun++
 	s.stats.FastYields++
+	if fullTrace && s.TraceOut != nil {
+		*s.TraceOut = append(*s.TraceOut, "  y "+site)
+	}
 	atomic.AddUint64(&s.clock, 1)
 	s.trace = mix(s.trace, strHash(site))
 	s.cur.site = site
@@ -541,6 +548,9 @@ func (s *Sim) Run() {
 			if s.cur != nil {
 				s.pairs[mix(strHash(s.cur.site), strHash(t.site))] = struct{}{}
 			}
+		}
+		if fullTrace && s.TraceOut != nil {
+			*s.TraceOut = append(*s.TraceOut, "  s "+t.name+" "+t.site)
 		}
 		if s.TraceOut != nil {
 			// rendered schedule: one line per context switch (runs of the same task are summarised)
